@@ -36,6 +36,8 @@ pub trait VK: Hash + Eq + Clone + MemSize + Sized + 'static {
 
 pub trait VV: Clone + MemSize + Sized + 'static {
     const TRACKED: bool;
+    /// heap size a value made by `make(_, heap)` / changed by `set_heap(heap)` reports
+    fn vheap_of(heap: usize) -> usize { heap }
     fn make(tag: u64, heap: usize) -> Self;
     fn tag(&self) -> u64;
     fn vheap(&self) -> usize;
@@ -206,6 +208,26 @@ impl VV for IVal {
     fn tid(&self) -> u64 { 0 }
     fn gen(&self) -> Option<u16> { Some(self.inner.gen) }
     fn name() -> &'static str { "indirectval" }
+}
+
+/// Zero-sized value (the cache used as an LRU *set*): carries no identity,
+/// every value has tag 0 and size 0.
+#[derive(Debug, Clone, Copy)]
+pub struct ZVal;
+
+impl HeapSize for ZVal {
+    fn heap_size(&self) -> usize { 0 }
+}
+
+impl VV for ZVal {
+    const TRACKED: bool = false;
+    fn vheap_of(_heap: usize) -> usize { 0 }
+    fn make(_tag: u64, _heap: usize) -> Self { ZVal }
+    fn tag(&self) -> u64 { 0 }
+    fn vheap(&self) -> usize { 0 }
+    fn set_heap(&mut self, _h: usize) { }
+    fn tid(&self) -> u64 { 0 }
+    fn name() -> &'static str { "zstval" }
 }
 
 /// Over-aligned value without drop glue (cache-line / SIMD style types).
@@ -583,7 +605,7 @@ impl<K: VK + std::borrow::Borrow<K::Q>, V: VV, S: VS> Mini<K, V, S> {
             Op::Insert { key, kheap, size } => {
                 let k = self.resolve_key(key);
                 let kheap = K::kheap_of(k, *kheap as usize);
-                let vheap = self.resolve_vheap(size, k, kheap, true);
+                let vheap = V::vheap_of(self.resolve_vheap(size, k, kheap, true));
                 self.insert(k, kheap, vheap);
             },
             Op::InsertMany { count, vheap } => {
@@ -591,7 +613,7 @@ impl<K: VK + std::borrow::Borrow<K::Q>, V: VV, S: VS> Mini<K, V, S> {
                 for _ in 0..(*count).min(200) {
                     if !self.fails.is_empty() { break; }
                     match self.model.absent(j, self.cfg.universe) {
-                        Some(k) => { j = k.wrapping_add(1); self.insert(k, K::kheap_of(k, 0), *vheap as usize); },
+                        Some(k) => { j = k.wrapping_add(1); self.insert(k, K::kheap_of(k, 0), V::vheap_of(*vheap as usize)); },
                         None => break,
                     }
                 }
@@ -666,7 +688,7 @@ impl<K: VK + std::borrow::Borrow<K::Q>, V: VV, S: VS> Mini<K, V, S> {
                 let k = self.resolve_key(key);
                 let pos = self.model.pos(k);
                 let kheap = pos.map(|i| self.model.order[i].kheap).unwrap_or(0);
-                let new_vheap = self.resolve_vheap(size, k, kheap, true);
+                let new_vheap = V::vheap_of(self.resolve_vheap(size, k, kheap, true));
                 let got = match form {
                     Form::Owned => { let q = K::make(k, 0); self.run_op("mutate", |c| c.mutate::<K, _, _>(&q, |v| { v.set_heap(new_vheap); 7u8 })) },
                     Form::Borrowed => self.run_op("mutate", |c| K::with_q(k, |q| c.mutate(q, |v| { v.set_heap(new_vheap); 7u8 }))),
@@ -835,7 +857,7 @@ impl<K: VK + std::borrow::Borrow<K::Q>, V: VV, S: VS> Mini<K, V, S> {
             Op::TryInsert { key, kheap, size } => {
                 let k = self.resolve_key(key);
                 let kheap = K::kheap_of(k, *kheap as usize);
-                let vheap = self.resolve_vheap(size, k, kheap, false);
+                let vheap = V::vheap_of(self.resolve_vheap(size, k, kheap, false));
                 self.try_insert(k, kheap, vheap);
             },
             Op::Churn { .. } | Op::Side(_) | Op::Inject { .. } => { },
@@ -961,7 +983,7 @@ impl<K: VK + std::borrow::Borrow<K::Q>, V: VV, S: VS> Mini<K, V, S> {
         let order = self.model.order.clone();
         let len = order.len();
         let plan = plan_walk(calls, rest, len);
-        let fate = if plan.fin.finishing() { Fate::Drop } else { fate };
+        let fate = if plan.fin.finishing() || matches!(fate, Fate::Unwind(_)) { Fate::Drop } else { fate };
         let exp = expect_walk(&plan, len);
         let yielded: BTreeSet<usize> = exp.yielded.clone();
         let forget = fate == Fate::Forget;
@@ -992,6 +1014,7 @@ impl<K: VK + std::borrow::Borrow<K::Q>, V: VV, S: VS> Mini<K, V, S> {
                             WalkOut::Hint(..) => got.push(None),
                             WalkOut::Fin(x) => fin_got.push(f(x)),
                             WalkOut::Count(n) => *fin_count = Some(n),
+                            WalkOut::Panicked => got.push(None),
                         });
                     }};
                 }
@@ -1113,7 +1136,8 @@ impl<K: VK + std::borrow::Borrow<K::Q>, V: VV, S: VS> Mini<K, V, S> {
     }
 }
 
-pub const VARIANTS: [&str; 14] = [
+pub const VARIANTS: [&str; 16] = [
+    "trackedkey+zstval+statefulhasher", "stringkey+zstval+defaulthasher",
     "stringkey+trackedval+statefulhasher", "stringkey+indirectval+defaulthasher", "trackedkey+indirectval+zsthasher",
     "plainkey+alignedval+statefulhasher", "alignedkey+trackedval+defaulthasher",
     "trackedkey+trackedval+defaulthasher", "plainkey+plainval+defaulthasher",
@@ -1139,6 +1163,8 @@ fn run_one<K: VK + std::borrow::Borrow<K::Q>, V: VV, S: VS>(case: &Case) -> Vari
 
 pub fn run_variant(name: &str, case: &Case) -> Option<VariantOutcome> {
     Some(match name {
+        "trackedkey+zstval+statefulhasher" => run_one::<TKey, ZVal, VHasher>(case),
+        "stringkey+zstval+defaulthasher" => run_one::<String, ZVal, hashbrown::hash_map::DefaultHashBuilder>(case),
         "stringkey+trackedval+statefulhasher" => run_one::<String, TVal, VHasher>(case),
         "stringkey+indirectval+defaulthasher" => run_one::<String, IVal, hashbrown::hash_map::DefaultHashBuilder>(case),
         "trackedkey+indirectval+zsthasher" => run_one::<TKey, IVal, ZHasher>(case),
